@@ -14,12 +14,16 @@ import (
 
 //verif:include ../dnsdata/rdb/zz_verif_model.go
 //verif:include ../db/zz_verif_world.go
-//verif:harness H12_reload property=C12 native=no quick=layout=2,sched=1;layout=0,sched=1 thorough=layout=1,sched=2;layout=2,sched=2
+//verif:harness H12_reload property=C12 native=no quick=layout=2,sched=1,partial=0;layout=0,sched=1,partial=0;layout=2,sched=1,partial=1 thorough=layout=1,sched=2,partial=0;layout=2,sched=2,partial=0;layout=1,sched=1,partial=1
 
 func H12_reload() {
 	verifLayout = nd.Param("layout")
 	verifPathGen = map[string]int{"/db/gen0": 0}
 	verifInstalled = 0
+	// the TTL base that marks generations is solver-chosen (see C05): the generation of a served
+	// record is decided by a solver query over the TTL that went through encoder, reader and cache
+	verifGenBase = nd.Uint32()
+	nd.Assume(verifGenBase >= 1 && verifGenBase <= 1<<30)
 	db.VerifOpen = verifOpenGen
 	first, err := verifOpenGen("/db/gen0")
 	nd.Assert(err == nil, "initial-open")
@@ -43,9 +47,21 @@ func H12_reload() {
 		_ = ask(1)
 		done <- struct{}{}
 	}()
-	go func() { // full reload to generation 1
-		verifPathGen["/db/gen1"] = 1
-		nd.Assert(env.h.Reload(*NewFullReloadSignal("/db/gen1")) == nil, "reload-ok")
+	go func() {
+		if nd.Param("partial") == 1 {
+			// in-place reload: the primary of the served RocksDB advanced to generation 1 and
+			// the secondary catches up; the *db.DB stays the same object
+			verifPathGen["/db/gen0"] = 1
+			m := db.VerifRocksModel(db.VerifDBI(env.h.dnsdb))
+			nd.Assert(m != nil, "rocksdb-layout")
+			snap, err := db.VerifBuildSnapshot(verifGenRecords(1), verifLayout == 2)
+			nd.Assert(err == nil, "snapshot")
+			m.Primary = db.VerifPrimaryOf(snap)
+			nd.Assert(env.h.Reload(*NewPartialReloadSignal()) == nil, "reload-ok")
+		} else { // full reload to generation 1
+			verifPathGen["/db/gen1"] = 1
+			nd.Assert(env.h.Reload(*NewFullReloadSignal("/db/gen1")) == nil, "reload-ok")
+		}
 		reloaded = true
 		done <- struct{}{}
 	}()
